@@ -99,3 +99,18 @@ Section Spec.
                           filter (fun i => (cls i =? c) && (lo cnt <=? rank i) && (rank i <? hi cnt)) all_ids)
                 (class_ids C)).
 End Spec.
+
+(* ClassFilterWrapper by name.  The name of class c; None when c is no class of the dataset (e.g. -1 = unlabeled) *)
+Definition class_name (class_names : list String.string) (c : Z) : option String.string :=
+  if c <? 0 then None else nth_error class_names (Z.to_nat c).
+
+(* the class carries one of the requested names *)
+Definition name_requested (class_names names : list String.string) (c : Z) : bool :=
+  match class_name class_names c with
+  | Some nm => existsb (String.eqb nm) names
+  | None => false
+  end.
+
+(* valid_class_names: exactly the samples whose class carries a requested name; invalid_class_names: exactly the others *)
+Definition spec_class_filter_names (classes : list Z) (valid : bool) (class_names names : list String.string) : list Z :=
+  spec_class_filter classes (fun c => Bool.eqb (name_requested class_names names c) valid).
